@@ -2,9 +2,7 @@
 //! of the width, histories that grow and shrink the set of bars past the terminal height
 //! (MultiProgress and single standalone bars), plus a boundary sweep of the f64 ceiling of
 //! LineType::wrapped_height against the integer ceiling of the model.
-#[path = "c19oracle/mod.rs"]
-mod c19oracle;
-use c19oracle::run_sys_cases;
+use verif_harness::sysoracle::run_sys_cases;
 use verif_harness::sysrun::*;
 use verif_harness::*;
 
@@ -70,7 +68,7 @@ fn corpus() -> Vec<Case> {
 /// here (private in the crate), swept over the boundaries.
 fn f64_ceiling_sweep(s: &mut Session, r: &mut Rng, n: u64) {
     let p53 = 1u64 << 53;
-    let mut check = |s: &mut Session, cols: u64, width: u64| {
+    let check = |s: &mut Session, cols: u64, width: u64| {
         let got = usize::max((cols as f64 / width as f64).ceil() as usize, 1) as u128;
         let want = u128::max(1, (cols as u128 + width as u128 - 1) / width as u128);
         s.count("f64_ceiling_checks");
